@@ -72,6 +72,11 @@ ProfTypes == [Base EXCEPT !.classes = {"A", "T", "R1", "R2"},
                 !.consts = {<<"int", 1, 1>>}, !.binops = {"+"}, !.aggs = {"Count", "Sum"}, !.first = TRUE, !.index = TRUE,
                 !.select = TRUE, !.where = FALSE, !.rows = {"bool"}, !.colls = {}, !.start = "perobj", !.enums = TRUE]
 
+\* C10, second profile: the same declared types as elements of vector columns (declared tree types must
+\* reach std::vector<...> columns too)
+ProfTypesVec == [Base EXCEPT !.classes = {"A", "T", "R1"}, !.methods = {"pt", "q", "tv", "trks", "vals", "valsp", "tref", "code", "color"},
+                   !.where = FALSE, !.rows = {"seq", "seqseq"}, !.enums = TRUE]
+
 \* C04: partial operations (First, index, link dereference) under guards
 ProfFault == [Base EXCEPT !.methods = {"pt", "vals", "link"}, !.consts = {<<"int", 0, 1>>},
                 !.iconsts = {0, 1, 2}, !.cmpops = {">"}, !.boolops = {"And", "Or"}, !.ifexp = TRUE,
